@@ -33,6 +33,7 @@ const (
 	tF64
 	tPtr     // pointer / interface: Bool "non-nil"
 	tPtrList // slice of pointers: List Bool
+	tIntList // slice of integers: List Int
 	tErr     // error value: String tag ("" = nil)
 	tUntyped
 )
@@ -45,6 +46,8 @@ func (t gty) lean() string {
 		return "Bool"
 	case tPtrList:
 		return "List Bool"
+	case tIntList:
+		return "List Int"
 	case tErr:
 		return "String"
 	}
@@ -278,10 +281,14 @@ func (e *env) expr(x ast.Expr) (string, gty) {
 		e.fail("selector %s", e.t.p.str(v))
 	case *ast.IndexExpr:
 		xs, ty := e.expr(v.X)
+		is, _ := e.expr(v.Index)
+		if ty == tIntList {
+			// an index outside the slice panics in Go; the theorems about such a definition carry the bound as a hypothesis
+			return fmt.Sprintf("(%s.getD (Int.toNat %s) 0)", xs, is), tU32
+		}
 		if ty != tPtrList {
 			e.fail("index into %s", e.t.p.str(v.X))
 		}
-		is, _ := e.expr(v.Index)
 		return fmt.Sprintf("(%s.getD (Int.toNat %s) false)", xs, is), tPtr
 	case *ast.UnaryExpr:
 		s, ty := e.expr(v.X)
@@ -378,11 +385,29 @@ func (e *env) call(v *ast.CallExpr) (string, gty) {
 			}
 			return s, tF64
 		case "len":
+			if _, shadowed := e.vars["len"]; shadowed {
+				e.fail("call of a shadowed len")
+			}
 			s, ty := e.expr(v.Args[0])
-			if ty != tPtrList {
+			if ty != tPtrList && ty != tIntList {
 				e.fail("len of %s", e.t.p.str(v.Args[0]))
 			}
 			return "(" + s + ".length : Int)", tInt
+		case "make":
+			// make([]uint32, 0): the empty list
+			if at, ok := v.Args[0].(*ast.ArrayType); ok && at.Len == nil && len(v.Args) == 2 && e.t.p.str(at.Elt) == "uint32" && e.t.p.str(v.Args[1]) == "0" {
+				return "([] : List Int)", tIntList
+			}
+			e.fail("make of %s", e.t.p.str(v.Args[0]))
+		case "append":
+			if len(v.Args) == 2 {
+				xs, ty := e.expr(v.Args[0])
+				x, _ := e.expr(v.Args[1])
+				if ty == tIntList {
+					return "(" + xs + " ++ [" + x + "])", tIntList
+				}
+			}
+			e.fail("append %s", e.t.p.str(v))
 		}
 	case *ast.SelectorExpr:
 		if id, ok := fn.X.(*ast.Ident); ok {
@@ -391,6 +416,14 @@ func (e *env) call(v *ast.CallExpr) (string, gty) {
 				if f, ok := e.recvField(v.Args[0]); ok {
 					e.useField(f)
 					return fmt.Sprintf("%s.%s", e.rname, leanIdent(f)), tU32
+				}
+			case "rand.Intn":
+				// the random choice is an input of the translated function (0 ≤ it < the argument is a hypothesis of the theorems)
+				if e.f.opaque && len(e.f.onames) == 0 {
+					e.expr(v.Args[0])
+					e.f.onames = append(e.f.onames, "rand_Intn")
+					e.f.otypes = append(e.f.otypes, tInt)
+					return "rand_Intn", tInt
 				}
 			case "math.Ceil":
 				if be, ok := v.Args[0].(*ast.BinaryExpr); ok && be.Op == token.QUO {
@@ -1207,6 +1240,7 @@ func transAll(v1, v2 *pkg) string {
 		{file: "azure-shared-resource.go", recv: "AzureSharedResource", name: "calc", lean: "v1_sr_calc"},
 		{file: "azure-shared-resource.go", recv: "AzureSharedResource", name: "GiveMe", lean: "v1_sr_GiveMe"},
 		{file: "azure-shared-resource.go", recv: "AzureSharedResource", name: "clearPartitionId", lean: "v1_sr_clearPartitionId"},
+		{file: "azure-shared-resource.go", recv: "AzureSharedResource", name: "getAllocatedAndRandomUnallocatedPartition", lean: "v1_sr_pick", opaque: true},
 		{file: "azure-shared-resource.go", recv: "AzureSharedResource", name: "Provision", lean: "v1_sr_partitionCount", sliceFrom: "count", sliceN: 2, sliceOut: []string{"count", "err"}},
 		{file: "provisioned-resource.go", recv: "ProvisionedResource", name: "MaxCapacity", lean: "v1_pr_MaxCapacity"},
 		{file: "provisioned-resource.go", recv: "ProvisionedResource", name: "Capacity", lean: "v1_pr_Capacity"},
@@ -1223,6 +1257,7 @@ func transAll(v1, v2 *pkg) string {
 		{file: "shared-resource.go", recv: "sharedResource", name: "GiveMe", lean: "v2_sr_GiveMe"},
 		{file: "shared-resource.go", recv: "sharedResource", name: "SetReservedCapacity", lean: "v2_sr_SetReservedCapacity"},
 		{file: "shared-resource.go", recv: "sharedResource", name: "clearPartitionId", lean: "v2_sr_clearPartitionId"},
+		{file: "shared-resource.go", recv: "sharedResource", name: "getAllocatedAndRandomUnallocatedPartition", lean: "v2_sr_pick", opaque: true},
 		{file: "shared-resource.go", recv: "sharedResource", name: "provisionBlobs", lean: "v2_sr_partitionCount", sliceFrom: "sharedCapacity", sliceN: 3, sliceOut: []string{"count"}},
 	}, &sb)
 	sb.WriteString("end GoBatcher.Trans\n")
